@@ -1287,9 +1287,101 @@ func runWGReadd(rng *rand.Rand) (viols []viol, st runStats) {
 	return
 }
 
+// runWGMultiAdd: multi-element Add calls racing with Done of their own early elements, without any guard element.
+// Every batch keeps at least one element that nobody marks done during the race. Argument: Add(a, b, ...) inserts its
+// elements as one step as far as triggering is concerned ("first increase the counter so that the trigger is not
+// executed before all elements are added"). The group is fresh, so before the first Add takes effect nothing is
+// pending and nothing can trigger; from the moment a batch has taken effect its never-done element is pending until
+// the harness marks it done after the join. A trigger needs the pending set to go from non-empty to empty, which
+// therefore cannot happen during the race: triggered at the join => violation. Afterwards the rest is marked done and
+// the group must trigger exactly once.
+func runWGMultiAdd(rng *rand.Rand) (viols []viol, st runStats) {
+	B := 1 + rng.Intn(2) // concurrent Add calls
+	st.shape = fmt.Sprintf("wg/multiadd/b%d", B)
+	overl := 0
+	for r, rounds := 0, 6+rng.Intn(20); r < rounds; r++ {
+		w := reactive.NewWaitGroup[int]()
+		var fired atomic.Int32
+		var firedAt atomic.Uint64
+		w.OnTrigger(func() { firedAt.CompareAndSwap(0, tick()); fired.Add(1) })
+		batches := make([][]int, B)
+		var early, rest []int
+		next := 1
+		for b := range batches {
+			n := 2 + rng.Intn(3)
+			for i := 0; i < n; i++ {
+				batches[b] = append(batches[b], next)
+				next++
+			}
+			k := 1 + rng.Intn(n-1) // the first k elements are marked done while the call is still running
+			early = append(early, batches[b][:k]...)
+			rest = append(rest, batches[b][k:]...)
+		}
+		var adding atomic.Int32
+		adding.Store(int32(B))
+		g := newGroup()
+		type callT struct{ Call, Ret uint64 }
+		calls := make([]callT, B)
+		for b := range batches {
+			y := rng.Intn(3)
+			g.spawn("multi-element Add", func() {
+				yield(y)
+				calls[b].Call = tick()
+				w.Add(batches[b]...)
+				calls[b].Ret = tick()
+				adding.Add(-1)
+				progress.Add(1)
+			})
+		}
+		S := 1 + rng.Intn(2)
+		for sp := 0; sp < S; sp++ {
+			g.spawn("Done spinner", func() {
+				for adding.Load() > 0 {
+					for _, e := range early {
+						w.Done(e)
+					}
+					runtime.Gosched()
+				}
+				w.Done(early...)
+				progress.Add(1)
+			})
+		}
+		st.ops += len(early) + len(rest)
+		st.add("wg_multi_element_adds_raced_by_done", B)
+		g.run()
+		overl += overlapping(g.spans)
+		st.nontrivial = overl > 0
+		if len(g.pn.rec) > 0 {
+			return nil, st
+		}
+		det := map[string]any{"round": r, "add_calls": batches, "add_call_ticks": calls, "marked_done_during_the_calls": early, "never_marked_done_so_far": rest, "pending": w.PendingElements().ToSlice(), "triggered": w.WasTriggered(), "handler_tick": firedAt.Load()}
+		if w.WasTriggered() || fired.Load() != 0 {
+			return []viol{{"waitgroup/triggered-while-elements-of-same-add-pending", fmt.Sprintf("Add%v raced with Done of the early elements %v only; elements %v of the same Add calls have never been marked done, yet the WaitGroup triggered", batches, early, rest), det}}, st
+		}
+		if p := maskOfInts(w.PendingElements().ToSlice()); p != maskOfInts(rest) {
+			return []viol{{"waitgroup/pending-elements-wrong", fmt.Sprintf("PendingElements() = %v, expected %v", w.PendingElements().ToSlice(), rest), det}}, st
+		}
+		w.Done(rest...)
+		if !w.WasTriggered() || fired.Load() != 1 {
+			return []viol{{"waitgroup/not-triggered-by-last-done", fmt.Sprintf("every element has been marked done but the WaitGroup has not triggered exactly once (triggered=%v, handler runs=%d)", w.WasTriggered(), fired.Load()), det}}, st
+		}
+	}
+	return
+}
+
+func maskOfInts(l []int) (m uint64) {
+	for _, e := range l {
+		m |= 1 << uint(e)
+	}
+	return
+}
+
 func runWG(rng *rand.Rand) (viols []viol, st runStats) {
-	if rng.Intn(3) == 0 {
+	switch rng.Intn(4) {
+	case 0:
 		return runWGReadd(rng)
+	case 1:
+		return runWGMultiAdd(rng)
 	}
 	const z = 999
 	G := 1 + rng.Intn(4)
@@ -1630,6 +1722,7 @@ func run(c *vf.Ctx) {
 	// deterministic base (attach from inside the callback of a zero write) + racing overlaps; the racing minimum
 	// scales with the parallelism that is actually available and never drops below a floor that still proves the
 	// window was entered through pre-emption / Gosched jitter
+	c.Require("wg_multi_element_adds_raced_by_done", total/100)
 	c.Require("attaches_inside_zero_write_callback", total/100)
 	c.Require("attaches_racing_zero_write", max(total/2000, total/100*par/4))
 }
